@@ -46,7 +46,7 @@ ObsParty(j) ==
            catchup |-> [p \in Vals \cup {"ext"} |-> 0],
            lastCommit |-> [r |-> j.cn.lastCommit.r, votes |-> j.cn.lastCommit.votes],
            decision |-> Nil, panic |-> "none", stuck |-> FALSE, out |-> << >>],
-   parts |-> SeqSet(j.parts),
+   parts |-> SeqSet(j.parts), lcpm |-> SeqSet(j.cn.lastCommit.pm),
    chain |-> [k \in DOMAIN j.chain |-> [v |-> j.chain[k].v, r |-> j.chain[k].r, votes |-> j.chain[k].votes]]]
 
 \* the observable part of a party (claims only as vote-set entries, no catch-up round counters)
@@ -60,7 +60,7 @@ View(p) ==
    round |-> p.cn.round, step |-> p.cn.step, lockedR |-> p.cn.lockedR, lockedV |-> p.cn.lockedV, validR |-> p.cn.validR,
    validV |-> p.cn.validV, prop |-> p.cn.prop, propBlock |-> p.cn.propBlock, partsHdr |-> p.cn.partsHdr, ttp |-> p.cn.ttp,
    pv |-> [r \in Rounds |-> VSView(p.cn.pv[r])], pc |-> [r \in Rounds |-> VSView(p.cn.pc[r])],
-   tracked |-> p.cn.tracked, lastCommit |-> p.cn.lastCommit]
+   tracked |-> p.cn.tracked, lastCommit |-> p.cn.lastCommit, lcpm |-> p.lcpm]
 
 \* the peer's NewRoundStep announcements are modelled by ONE message for the height/round/step the call ends in; the code
 \* sends one per newStep() (also when nothing changed: enterPrecommitWait): compare modulo the intermediate ones
